@@ -281,10 +281,23 @@ class Parser:
     def skip_attrs_vis(self):
         """skips attributes and visibility; the names listed in `#[derive(..)]` are left in self.derives"""
         self.derives = []
+        self.battrs = []
         while True:
             if self.at("#"):
                 self.i += 1
                 self.accept("!")
+                if self.at("[") and self.at("builder", 1) and self.at("(", 2):
+                    # `#[builder(default, setter(strip_option))]` (derive_builder): the words of the attribute
+                    j = self.i + 3
+                    depth = 1
+                    while depth and self.t[j].kind != "eof":
+                        if self.t[j].kind == "punct" and self.t[j].val == "(":
+                            depth += 1
+                        elif self.t[j].kind == "punct" and self.t[j].val == ")":
+                            depth -= 1
+                        elif self.t[j].kind in ("ident", "str"):
+                            self.battrs.append(str(self.t[j].val))
+                        j += 1
                 if self.at("[") and self.at("derive", 1) and self.at("(", 2):
                     j = self.i + 3
                     while not (self.t[j].kind == "punct" and self.t[j].val == ")") and self.t[j].kind != "eof":
@@ -418,10 +431,11 @@ class Parser:
 
     def parse_struct(self, out):
         derives = list(self.derives)
+        battrs = list(getattr(self, "battrs", []))
         self.eat("struct")
         name = self.ident()
         gens = self.generic_names()
-        out["meta"][name] = {"generics": gens, "derives": derives, "tuple": False}
+        out["meta"][name] = {"generics": gens, "derives": derives, "tuple": False, "builder": battrs, "field_builder": {}, "field_text": {}}
         if self.accept(";"):
             out["structs"][name] = []
             return
@@ -449,8 +463,10 @@ class Parser:
         fields = []
         while not self.at("}"):
             self.skip_attrs_vis()
+            fb = list(getattr(self, "battrs", []))
             fn = self.ident()
             self.eat(":")
+            out["meta"][name]["field_builder"][fn] = fb
             # field types outside the subset are recorded as None (the struct is then usable only if that field is never needed)
             save = self.i
             try:
@@ -472,6 +488,7 @@ class Parser:
                         self.err("unterminated declaration")
                     self.i += 1
             fields.append((fn, ty))
+            out["meta"][name]["field_text"][fn] = " ".join(str(t_.val) for t_ in self.t[save:self.i])
             if not self.accept(","):
                 break
         self.eat("}")
